@@ -114,7 +114,7 @@ def shard(tier, seedv, k, n, col: Collector):
     def body(case):
         col.case()
         recipe = case["recipe"]
-        col.cls("gen:" + ("degenerate" if recipe.get("degenerate") else ("sub" if recipe.get("routines") else "core")))
+        col.cls("gen:" + ("degenerate" if recipe.get("degenerate") else ("constant-pool" if recipe.get("pool") else ("sub" if recipe.get("routines") else "core"))))
         res = judge_recipe(case, col)
         for b, d in res:
             col.fail(b, d, case)
